@@ -150,6 +150,24 @@ func (cs *ContractSet) LoadLines(path string, lines []string, lineNos []int, pkg
 		}
 		return substIdents(e, lets), nil
 	}
+	// filelet abbreviations are visible in the whole file, wherever they are written
+	for _, raw := range lines {
+		line := strings.TrimSpace(raw)
+		if r, ok := strings.CutPrefix(line, "filelet "); ok {
+			name, ex, ok := strings.Cut(r, "=")
+			if !ok {
+				continue
+			}
+			pe, err := ParseExpr(strings.TrimSpace(ex))
+			if err != nil {
+				return fmt.Errorf("%s: filelet %s: %v", path, name, err)
+			}
+			fileLets[strings.TrimSpace(name)] = substIdents(pe, fileLets)
+		}
+	}
+	for n, x := range fileLets {
+		lets[n] = x
+	}
 	for k, raw := range lines {
 		ln := lineNos[k]
 		line := strings.TrimSpace(raw)
